@@ -7,6 +7,7 @@ D=/verif/seeded/$S
 PID=$(echo $S | cut -d- -f1)
 CHECKS="$@"; [ -z "$CHECKS" ] && CHECKS=$(echo $PID | tr 'C' 'c')
 cd /repo || exit 2
+exec 9>/tmp/seed_repo.lock; flock 9
 if [ -n "$(git status --porcelain --untracked-files=no)" ]; then echo "/repo working tree is not clean"; exit 2; fi
 git apply $D/patch.diff || { echo "patch does not apply"; exit 3; }
 REBUILT=""
